@@ -22,7 +22,7 @@ func init() {
 		MinNontriv:  40,
 		Cases: func(tier string) int {
 			if tier == "thorough" {
-				return 20000
+				return 150000
 			}
 			return 2000
 		},
